@@ -208,7 +208,7 @@ fn decoder_part(ctx: &Ctx, rep: &mut Report) {
     })));
     let mut r = ctx.rng("c06");
     let (ex_upto, rand_cuts) = match ctx.tier { Tier::Quick => (9usize, 6usize), Tier::Thorough => (12, 40) };
-    let n_streams = ctx.count(2_400, 60_000);
+    let n_streams = ctx.count(12_000, 120_000);
     let bound = 4 + MAX_FRAME_SIZE;
     for sn in 0..n_streams {
         // ---- choose a stream ---------------------------------------------------------------
@@ -346,7 +346,7 @@ fn decoder_part(ctx: &Ctx, rep: &mut Report) {
 fn handler_part(ctx: &Ctx, rep: &mut Report) {
     rep.need("handler_terminations_checked", 20);
     let mut r = ctx.rng("c06-handler");
-    let n = ctx.count(160, 3_000);
+    let n = ctx.count(480, 3_000);
     for k in 0..n {
         let seed = ctx.scenario_seed(r.next());
         let mut sr = Rng::new(seed);
